@@ -77,7 +77,7 @@ theorem step_env_agrees (e : EnvEntry) (he : e ∈ envTable) (s : IState) (hcode
   have hg := hwf.gas
   simp only [envTable, List.mem_cons, List.not_mem_nil, or_false] at he
   rcases he with rfl | rfl | rfl | rfl | rfl | rfl | rfl | rfl | rfl | rfl | rfl | rfl | rfl | rfl | rfl | rfl | rfl
-    | rfl | rfl <;> exact step_pushVal s _ _ _ _ hcode rfl hg
+    | rfl <;> exact step_pushVal s _ _ _ _ hcode rfl hg
 
 set_option maxRecDepth 8000 in
 theorem decode_dup (n : Fin 16) : decode (0x80 + n.val) = .dup n := by
